@@ -230,7 +230,10 @@ def check_outputs(mir, nodes, outs):
                 if name != "InputReference" or b["refers_to"] != node.f["name"]:
                     raise Mismatch(f"operation {k}: wrote input '{node.f['name']}', MIR has {name} {b.get('refers_to')}")
                 e = inputs.get(node.f["name"])
-                if e is not None and (e["party"] != node.f["party"] or e["doc"] != node.f["doc"]):
+                if e is None:
+                    raise Mismatch(f"operation {k}: wrote input '{node.f['name']}', the MIR's input table has no entry of that name: "
+                                   f"the reference cannot be unfolded")
+                if e["party"] != node.f["party"] or e["doc"] != node.f["doc"]:
                     raise Mismatch(f"input '{node.f['name']}' declared for party {node.f['party']!r} doc {node.f['doc']!r}, "
                                    f"MIR lists party {e['party']!r} doc {e['doc']!r}")
                 continue
